@@ -1,4 +1,5 @@
 import AdaVerif.Model.HostParse
+import AdaVerif.Model.SimpleAbs
 import Driver.Proto
 import AdaVerif.Spec.Sets
 import AdaVerif.Model.Encode
@@ -79,6 +80,15 @@ def step (a : List String) : String :=
     let idna : Spec.Idna := ⟨fun _ => if hint == "!" then none else some (unhexs hint)⟩
     let sh (r : Option (Bytes × Nat)) : String := match r with | some (t, k) => hexs t ++ "," ++ toString k | none => "fail"
     sh (Model.HostParse.parseHost idna (sp == "1") (unhexs h)) ++ " " ++ sh (Model.HostParse.parseHostA idna (sp == "1") (unhexs h))
+  | ["simpleabs", h] =>
+    match Model.SimpleAbs.trySimple (unhexs h) with
+    | none => "fail fail"
+    | some r =>
+      let o (x : Option Bytes) : String := match x with | some b => hexs b | none => "!"
+      let p (x : Option Nat) : String := match x with | some n => toString n | none => "-"
+      let ty := if r.scheme.length == 5 then 2 else 0
+      s!"{hexs r.scheme},{if r.special then 1 else 0},{hexs r.username},{hexs r.password},{o r.host},{p r.port},{hexs r.path}," ++
+      s!"{o r.query},{o r.hash},{if r.opq then 1 else 0},0 {dumpAgg (Model.Agg.layout (Model.UrlRec.toL r))},0,{ty}"
   | "spec.canon" :: comp :: value :: proto :: hints => cmdSpecCanon comp value proto hints
   | _ => "bad-op"
 
